@@ -196,7 +196,7 @@ package main
 // AddSnowflake: a fresh entry with private channels, filed in the pool of its NAT type (the pool invariant is
 // checked when the lock is released).
 //@ func (ctx *BrokerContext) AddSnowflake(id string, proxyType string, natType string, clients int) (r *Snowflake)
-//@   props C03, C02
+//@   props C03, C02, C04, C14
 //@   requires ctx != nil
 //@   flag nosafety paths
 //@   at call Push ghost snowflake.registered = true
@@ -207,7 +207,7 @@ package main
 // The per-poll goroutine started by Broker(): on timeout the entry is removed from the pool it was filed in
 // (iff it is still queued), unregistered, and the poll is answered.
 //@ func (ctx *BrokerContext) Broker$1(request *ProxyPoll)
-//@   props C03, C02, C04
+//@   props C03, C02, C04, C14
 //@   flag concurrent paths nosafety lifetime=After paired-send=RequestOffer paired-recv=ClientOffers
 //@   requires ctx != nil && request != nil && snowflake != nil && snowflake.registered && snowflake.natType == request.natType && snowflake.id == request.id && request.offerChannel != nil
 //@   at entry ghost wasQueued = false
@@ -232,7 +232,7 @@ package main
 // RequestOffer: the poll is registered with the caller's id / NAT type / load, and the value returned is the one
 // received on this poll's private channel.
 //@ func (ctx *BrokerContext) RequestOffer(id string, proxyType string, natType string, clients int) (offer *ClientOffer)
-//@   props C02, C04
+//@   props C02, C04, C14
 //@   flag concurrent nosafety paired-send=Broker paired-recv=Broker$1
 //@   requires ctx != nil
 //@   at call send assert {registers-this-poll} ch == ctx.proxyPolls && value != nil && fresh(value) && value.id == id && value.proxyType == proxyType && value.natType == natType && value.clients == clients && fresh(value.offerChannel)
